@@ -29,7 +29,9 @@ Inductive cls :=
 | CAny
 | CRanges (neg : bool) (rs : list (N * N)).
 
-Inductive assertion := AStart | AEnd | AWordB | ANotWordB.
+(* ^ $ \b \B \b{start} \b{end}; AWide a: the assertion a inside the `wide` form of a
+   regexp, where the neighbouring CHARACTERS are two bytes away (Modifiers.widen_re) *)
+Inductive assertion := AStart | AEnd | AWordB | ANotWordB | AWordStart | AWordEnd | AWide (a : assertion).
 
 Inductive re :=
 | REps
